@@ -15,7 +15,7 @@ import (
 	"golang.org/x/tools/go/ssa/ssautil"
 )
 
-const repoMod = "github.com/jcmoraisjr/haproxy-ingress"
+var repoMod = "github.com/jcmoraisjr/haproxy-ingress"
 
 type Prog struct {
 	fset    *token.FileSet
@@ -36,7 +36,7 @@ type Prog struct {
 
 func loadProg(repoDir string, patterns []string) (*Prog, error) {
 	cfg := &packages.Config{
-		Mode:       packages.LoadAllSyntax,
+		Mode:       packages.LoadAllSyntax | packages.NeedModule,
 		Dir:        repoDir,
 		BuildFlags: []string{"-tags=verif"},
 		Env:        append(os.Environ(), "GOFLAGS=-mod=mod", "GOPROXY=off", "GOSUMDB=off", "GOTOOLCHAIN=local"),
@@ -56,6 +56,9 @@ func loadProg(repoDir string, patterns []string) (*Prog, error) {
 	})
 	if nerr > 0 {
 		return nil, fmt.Errorf("%d package load errors", nerr)
+	}
+	if len(pkgs) > 0 && pkgs[0].Module != nil {
+		repoMod = pkgs[0].Module.Path
 	}
 	sp, _ := ssautil.AllPackages(pkgs, ssa.NaiveForm|ssa.GlobalDebug)
 	sp.Build()
